@@ -253,6 +253,12 @@ static void dm_note (uintptr_t addr, size_t n) {  /* call BEFORE the write */
 		for (int t = 0; t < nfib; t++) {
 			struct dmap *m = &F[t].dm; int k;
 			if (!m->active || m->overflow) continue;
+			/* A write by ANOTHER fiber while fiber t is in the middle of an iteration (preempted between two
+			   yields): t may have read, or may yet read, the new value, so "memory at the end of the iteration
+			   equals memory at its start" no longer implies that running the iteration again does the same
+			   thing (seen with a stale semaphore post: the poster raises the count during the iteration, the
+			   iteration consumes it, the next one would find zero and time out).  Such an iteration never parks.  */
+			if (t != cur && F[t].st == ST_RUN) { m->overflow = 1; continue; }
 			for (k = 0; k < m->n; k++) if (m->a[k] == w) break;
 			if (k < m->n) continue;
 			if (m->n < DM) { m->a[m->n] = w; m->old[m->n] = *(volatile uint64_t *)w; m->n++; }
